@@ -45,6 +45,14 @@ func Inputs(t *sut.Target, s, pairCap int, f func(recs []refpq.Val, batches []in
 			f(recs, []int{1, 1}, 0)
 		}
 	}
+	// a row group of several pages followed by further use of the same writer
+	// (and the reverse): three records, page size 1, batches 2+1 and 1+2
+	if len(all) >= 1 {
+		fl := &gen.Filler{}
+		recs := []refpq.Val{gen.Fill(root, all[len(all)-1], fl), gen.Fill(root, all[0], fl), gen.Fill(root, all[len(all)/2], fl)}
+		f(recs, []int{2, 1}, 1)
+		f(recs, []int{1, 2}, 1)
+	}
 	// three records with the fullest structure in the middle (page size 2)
 	if len(all) >= 2 {
 		fl := &gen.Filler{}
